@@ -58,10 +58,11 @@ Definition aval_text (v : aval) : str := match v with AStr s => s | AHtml s => s
 
 (* The values of one name joined by single spaces.  All plain: a plain str, the texts
    joined.  As soon as one of them is HTML the result is HTML: the HTML values verbatim,
-   the plain ones through the TEXT escape map (and not the attribute one; see C03). *)
+   the plain ones through the ATTRIBUTE escape map (the merged HTML value is later written
+   between the quotes of the attribute as it is). *)
 Definition seg_text (html : bool) (v : aval) : str :=
   match v with
-  | AStr s => if html then spec_escape false s else s
+  | AStr s => if html then spec_escape true s else s
   | AHtml s => s
   end.
 Definition merged (vs : list aval) : aval :=
